@@ -922,7 +922,7 @@ def attribute_scans(ctx):
                             for y in walk(src_))
                         okv = okv or (strip(v)[0] == 'arg' and in_chain)
             ok = okv and (sep == ('int', 10, 'char') or (sep[0] in ('const', 'str') and '\\n' in str(sep[1]))) and per_item
-        ctx.ob(['C17'], 'R-EXPR', 'DOC|joined-in-order', ok, 'Attributes::doc appends the string of every `doc = ".."` attribute in list order, separated by a newline', loc(f.span))
+        ctx.ob(['C17', 'C20'], 'R-EXPR', 'DOC|joined-in-order', ok, 'Attributes::doc appends the string of every `doc = ".."` attribute in list order, separated by a newline', loc(f.span))
 
 
 # ------------------------------------------------------------------------------------------------
